@@ -664,8 +664,14 @@ def conclude(pm, tier, seed, results, t0, extra=None, run_jobs=None, opts=None):
   uniq = {}
   for g, d in prepared:
     uniq.setdefault(json.dumps(d, sort_keys=True, default=str), d)
+  nbody = 0
   for g, case, d in body_prepared:
-    uniq.setdefault(json.dumps(d, sort_keys=True, default=str), d)
+    k = json.dumps(d, sort_keys=True, default=str)
+    if k not in uniq:
+      if nbody >= 24:
+        continue      # bounded native searches are expensive: at most 24 distinct ones per run
+      nbody += 1
+    uniq.setdefault(k, d)
   keys = list(uniq)
   try:
     nats = dict(zip(keys, run_native([uniq[k] for k in keys]))) if keys else {}
